@@ -661,10 +661,12 @@ func c14Many(ctx *core.Ctx) core.Result {
 				res.Violate("C14;many;written", fmt.Sprintf("Written returned (%d,%v)", m, err), nil)
 				continue
 			}
-			if off+len(data) > n {
-				contents[i] = append(contents[i], make([]byte, off+len(data)-n)...)
+			if len(data) > 0 { // (writing nothing does not extend the file, wherever it is "written")
+				if off+len(data) > n {
+					contents[i] = append(contents[i], make([]byte, off+len(data)-n)...)
+				}
+				copy(contents[i][off:], data)
 			}
-			copy(contents[i][off:], data)
 			continue
 		}
 		b, err := c.Read(files[i].Fid, uint64(off), uint32(cnt))
